@@ -371,7 +371,7 @@ func (l pyList) Operator(operator Operator, operand pyObject) pyObject {
 		return l[pyIndex(l, operand, false)]
 	case LessThan:
 		// Needed for sorting.
-		l2, ok := operand.(pyList)
+		l2, ok := asList(operand)
 		if !ok {
 			panic("Cannot compare list and " + operand.Type())
 		}
